@@ -19,6 +19,7 @@ struct SchedOpts
   uint64_t stall_max_ns = 5000000; // 5 ms
   bool allow_spurious = true;
   uint64_t step_ns = 1000;
+  unsigned stall_one_in = 4; // one run in N has stalls enabled
   bool rr_baseline = true; // include the non-preemptive round-robin baseline among the strategies
 };
 inline sim::Config draw_sched(const SchedOpts& o = SchedOpts())
@@ -31,11 +32,12 @@ inline sim::Config draw_sched(const SchedOpts& o = SchedOpts())
   else if (s == 7 || s == 8) { c.strategy = sim::PCT; c.pct_depth = 1 + (unsigned)sim::draw(5); c.pct_horizon = 200ull << sim::draw(8); }
   else { c.strategy = sim::RR; }
   c.step_ns = o.step_ns;
-  if (o.allow_stalls && sim::draw(4) == 3)
+  if (o.allow_stalls && sim::draw(o.stall_one_in) == o.stall_one_in - 1)
   {
     static const unsigned ppm[] = {200, 1000, 5000, 20000};
     c.stall_ppm = ppm[sim::draw(4)];
     c.stall_max_ns = 1 + o.stall_max_ns / (1ull << (2 * sim::draw(4)));
+    if (sim::draw(2)) c.create_stall_permille = 150;
   }
   if (o.allow_spurious && sim::draw(4) == 3) c.spurious_ppm = 20000;
   sim::logf("sched strat=%d pre=%u pct=%u/%llu stall=%u/%llu spur=%u", c.strategy, c.preempt_permille, c.pct_depth,
